@@ -61,7 +61,9 @@ namespace sim
 			// verification hook: poll one handler at a time and report every
 			// event boundary to the harness
 			last_executed = 0;
-			while (m_service.poll_one() > 0)
+			// (the hook may post work after the queue ran dry, which has stopped
+			// the io_context: clear that before every poll_one())
+			while (m_service.restart(), m_service.poll_one() > 0)
 			{
 				++last_executed;
 				if (verif_step_hook) verif_step_hook(0);
